@@ -463,10 +463,11 @@ fn try_get_token_a_from_liquidity(
     round_up: bool,
 ) -> Result<u64, CoreError> {
     let sqrt_price_diff = sqrt_price_upper - sqrt_price_lower;
+    // checked_shl only rejects a shift amount >= 256; the value itself can lose its high bits
     let numerator: U256 = <U256>::from(liquidity_delta)
         .checked_mul(sqrt_price_diff.into())
         .ok_or(ARITHMETIC_OVERFLOW)?
-        .checked_shl(64)
+        .checked_mul(<U256>::from(1u128 << 64))
         .ok_or(ARITHMETIC_OVERFLOW)?;
     let denominator = <U256>::from(sqrt_price_upper)
         .checked_mul(<U256>::from(sqrt_price_lower))
